@@ -9,7 +9,15 @@ Real ``WebSocketReader.feed_data`` (pure Python, aiohttp/_websocket/reader_py.py
   4. the outcome is identical for every segmentation (whole, byte-at-a-time, all single cuts, all double cuts for short
      streams, cuts around every frame boundary for long ones, random);
   5. after every feed the bytes retained for incomplete input (_partial + _payload_fragments + _tail) are
-     <= max_msg_size + RETAIN_CONST and every inflate call returns <= max_msg_size + INFLATE_CONST bytes.
+     <= max_msg_size + RETAIN_CONST and every inflate call returns <= max_msg_size + INFLATE_CONST bytes;
+  6. consumer timing: the same deliveries read by a consumer task through the public ``await queue.read()`` - already
+     waiting when the first byte arrives, starting after k deliveries, only after everything (including the violating
+     frame) has arrived, or slower than the deliveries - yield exactly the messages of (1) and then the error of (2);
+     what is read after the error is the error again.  A delivery that pauses the transport is followed by consumer
+     time (a paused transport delivers nothing);
+  7. receive path (stratum ``receive``): the same for an application that reads through ``receive()`` of a real
+     ``web.WebSocketResponse`` (handler behind the real RequestHandler) and of a real ``ClientWebSocketResponse``
+     (``ws_connect``), including bytes that are on the connection before the endpoint object exists (vlib/wsrecv.py).
 """
 
 from __future__ import annotations
@@ -26,19 +34,26 @@ DESIGN_REF = "DESIGN.md §3 C12"
 TECHNIQUE = (
     "runtime monitoring: differential oracle (independent RFC 6455/7692 decoder) over the real WebSocketReader fed "
     "generated hostile streams under exhaustive/boundary/random segmentations, with retained-bytes and inflate-output "
-    "invariants checked after every feed"
+    "invariants checked after every feed; consumer-timing equivalence through the public read()/receive() path"
 )
 LEVEL_TEXT = (
     "Exploration: every protocol-violation class and every valid edge unit is injected at every frame position of three "
     "base sequences, plus size-limit ladders, deflate bombs, huge declared lengths, thousands of fragments, random and "
     "mutated streams; each stream is fed to the real reader under 16 configurations and under whole / byte-at-a-time / "
     "all single cuts / all double cuts (streams <= 150 bytes) / frame-boundary cuts / random segmentations, and judged by "
-    "an independent decoder. Says: held on these streams and cuts; nothing about unexplored bytes."
+    "an independent decoder; the same deliveries are also read by a consumer task through the public read() (waiting "
+    "before the first byte, starting after k deliveries, only after everything has arrived, slower than the deliveries) "
+    "and, for the class and size units, through receive() of a real web.WebSocketResponse and ClientWebSocketResponse. "
+    "Says: held on these streams, cuts and consumer timings; nothing about unexplored bytes."
 )
 RULE = (
     "streams = (violation or valid edge unit) x every frame position of 3 base sequences, size ladders around "
     "max_msg_size, deflate bombs, 64-bit lengths, fragment floods, random bytes and byte mutations; each under "
-    "compress on/off x decode_text x max_msg_size {0,16,256,4MiB}; a case = (stream, configuration, segmentation); "
+    "compress on/off x decode_text x max_msg_size {0,16,256,4MiB}; consumer timing: per segmentation 'whole', 'byte' and "
+    "'one delivery per frame' a consumer that waits / keeps up / is slow / gives up a waiting read() and retries / starts after k deliveries (every k for <= 12 "
+    "frames on 40% of the streams) / reads only after all bytes, a random consumer on a stride of the other segmentations, and the receive() "
+    "stratum (server and client endpoint, bytes before the endpoint exists, start after every k); "
+    "a case = (stream, configuration, segmentation[, consumer]); "
     "non-trivial = the real reader consumed at least one complete frame header; distinct = distinct (stream, config, cuts)"
 )
 ASSUMPTIONS = [
@@ -46,7 +61,9 @@ ASSUMPTIONS = [
     "profile rules P-mask-direction, P-size-boundary, P-size-wire, P-raw-text, P-len-msb, P-bfinal-members and the grey "
     "classes listed in vlib/refws.py",
     "zlib (CPython) inflates/deflates correctly; queue contents are read through WebSocketDataQueue._buffer/exception() "
-    "as the repository's own tests do",
+    "as the repository's own tests do, and through await read() / receive() in the consumer-timing runs",
+    "VLoop/MemPipe deliver bytes and schedule tasks like a selector loop (selftest/test_engine.py); a paused transport "
+    "delivers nothing until the consumer has read",
 ]
 FILES = [
     "aiohttp/_websocket/reader_py.py",
@@ -60,6 +77,8 @@ ANCHORS = [
     "aiohttp._websocket.reader_py:WebSocketReader._handle_frame",
     "aiohttp._websocket.reader_py:WebSocketDataQueue.feed_data",
     "aiohttp._websocket.reader_py:WebSocketDataQueue.set_exception",
+    "aiohttp._websocket.reader_py:WebSocketDataQueue.read",
+    "aiohttp._websocket.reader_py:WebSocketDataQueue._read_from_buffer",
     "aiohttp.compression_utils:ZLibDecompressor.decompress_sync",
     "aiohttp._websocket.helpers:_websocket_mask_python",
 ]
@@ -117,8 +136,11 @@ def _load():
         def is_closing(self):
             return False
 
+    from vlib.vloop import VLoop
+
     _loaded.update(
-        reader_py=reader_py, WebSocketError=WebSocketError, BaseProtocol=BaseProtocol, RecTransport=RecTransport
+        reader_py=reader_py, WebSocketError=WebSocketError, BaseProtocol=BaseProtocol, RecTransport=RecTransport,
+        asyncio=asyncio, VLoop=VLoop,
     )
     return _loaded
 
@@ -213,6 +235,199 @@ def run_reader(S: bytes, cfg, segs) -> Outcome:
     out.pauses = tr.pauses
     out.headers_seen = reader._frame_opcode != -1
     return out
+
+
+# ---------------------------------------------------------------------------------------------------
+# consumer timing: the same deliveries, read through the public ``await WebSocketDataQueue.read()``
+
+_CL: dict = {}
+
+
+def _consumer_loop():
+    lp = _CL.get("loop")
+    if lp is None or lp.is_closed():
+        lp = _CL["loop"] = _load()["VLoop"]()
+    return lp
+
+
+class Consumed:
+    __slots__ = ("msgs", "err", "errmsg", "after", "forced", "blocked", "retries")
+
+
+def run_consumer(S: bytes, cfg, segs, start: int, steps, pause: int, impatient: bool = False) -> Consumed:
+    """One ``feed_data`` per segment (one data_received each) like run_reader; a consumer task reads through
+    ``await queue.read()``.
+
+      start   the consumer begins to read after that many deliveries (0: it is already waiting inside read() when the
+              first byte arrives; len(segs): only after everything, a violating frame included, has arrived)
+      steps   loop iterations the consumer task gets after each delivery once it has started (None: until idle)
+      pause   suspensions of the consumer after each message it has read (an application that does something with it)
+      impatient  a read() that is still waiting when the consumer's time after a delivery is over is cancelled (a
+              receive timeout expiring) and the consumer calls read() again
+
+    A delivery that leaves the transport paused is followed by consumer time until reading is resumed: a paused
+    transport delivers nothing, so the next bytes cannot arrive before the consumer has read."""
+    L = _load()
+    rp = L["reader_py"]
+    asyncio = L["asyncio"]
+    WSE = L["WebSocketError"]
+    loop = _consumer_loop()
+    deflate, decode_text, mx = cfg
+    proto = L["BaseProtocol"](loop)
+    proto._upgraded = True
+    proto.transport = L["RecTransport"]()
+    queue = rp.WebSocketDataQueue(proto, 2**16, loop=loop)
+    reader = rp.WebSocketReader(queue, mx, deflate, decode_text)
+    res = Consumed()
+    res.msgs, res.err, res.errmsg, res.after, res.forced = [], None, "", [], 0
+    st = {"errored": False, "in_read": False, "retries": 0}
+
+    def note(exc):
+        return ("ws", int(exc.code)) if isinstance(exc, WSE) else ("exc", type(exc).__name__)
+
+    gate = loop.create_future()
+    probe = loop.create_future()
+
+    async def consumer():
+        await gate
+        msgs = res.msgs
+        while True:
+            st["in_read"] = True
+            try:
+                m = await queue.read()
+            except asyncio.CancelledError:
+                if not st.pop("timeout", False):
+                    raise
+                asyncio.current_task().uncancel()  # the receive timeout: try again
+                st["retries"] += 1
+                continue
+            except BaseException as e:  # noqa
+                res.err = note(e)
+                res.errmsg = str(e)
+                break
+            finally:
+                st["in_read"] = False
+            t = int(m.type)
+            msgs.append((KIND_OF_TYPE.get(t, f"type{t}"), m.data, m.extra, m.size))
+            for _ in range(pause):
+                await asyncio.sleep(0)
+        st["errored"] = True
+        await probe
+        for _ in range(2):  # the stream has ended: whatever is read from now on
+            try:
+                m = await queue.read()
+            except asyncio.CancelledError:
+                raise
+            except BaseException as e:  # noqa
+                res.after.append(note(e))
+            else:
+                res.after.append(("msg", int(m.type)))
+
+    task = loop.create_task(consumer())
+    opened = False
+    if start <= 0:
+        opened = True
+        gate.set_result(None)
+        loop.settle(1000)
+    k = 0
+    for seg in segs:
+        k += 1
+        reader.feed_data(seg)
+        if not opened and k >= start:
+            opened = True
+            gate.set_result(None)
+        if opened:
+            if steps is None:
+                loop.settle(100000)
+            else:
+                loop.step(steps)
+            if impatient and st["in_read"] and not task.done():
+                st["timeout"] = True
+                task.cancel()
+                loop.settle(1000)
+        if proto._reading_paused and not st["errored"]:
+            res.forced += 1
+            if not opened:
+                opened = True
+                gate.set_result(None)
+            loop.settle(1_000_000)
+    if not opened:
+        gate.set_result(None)
+    loop.settle(1_000_000)
+    if st["errored"]:
+        reader.feed_data(b"\x81\x04late")  # latch probe: a perfectly valid frame after the error
+        probe.set_result(None)
+        loop.settle(1000)
+    res.blocked = not task.done()
+    res.retries = st["retries"]
+    if not task.done():
+        task.cancel()
+        loop.settle(1000)
+    if not task.cancelled() and task.exception() is not None:
+        raise task.exception()
+    return res
+
+
+def judge_consumer(out: Outcome, c: Consumed):
+    """what the consumer read == what run_reader found on the queue for the same deliveries (which judge() compares with
+    the reference decoder): the same messages, then the same error.  Returns [(mechanism, summary)]."""
+    qm, cm = out.msgs, c.msgs
+    for i in range(min(len(qm), len(cm))):
+        if qm[i] != cm[i] or type(qm[i][1]) is not type(cm[i][1]):
+            return [("consumer-timing:message-differs", f"message {i}: read() returned {cm[i]!r:.70}, decoded {qm[i]!r:.70}")]
+    if len(cm) < len(qm):
+        if c.err is not None:
+            return [("consumer-timing:messages-dropped-at-error", f"read() raised {c.err} {c.errmsg!r:.60} after {len(cm)} messages; {len(qm)} valid messages had been decoded before the violation")]
+        return [("consumer-timing:messages-not-delivered", f"read() returned {len(cm)} of {len(qm)} decoded messages and then blocked")]
+    if len(cm) > len(qm):
+        return [("consumer-timing:extra-message", f"read() returned {len(cm)} messages, {len(qm)} were decoded; extra={cm[len(qm)]!r:.70}")]
+    v = []
+    if c.err != out.err:
+        if c.err is None:
+            v.append(("consumer-timing:error-not-raised", f"all {len(qm)} messages read, then read() blocked; the reader had failed with {out.err} {out.errmsg!r:.60}"))
+        else:
+            v.append(("consumer-timing:error-differs", f"read() raised {c.err} {c.errmsg!r:.60}; the reader had failed with {out.err}"))
+    for a in c.after:
+        if a[0] == "msg":
+            v.append(("consumer-timing:delivered-after-error", f"after read() had raised {c.err}, a later read() returned a message of type {a[1]}"))
+            break
+        if a != c.err:
+            v.append(("consumer-timing:error-changes-on-reread", f"read() raised {c.err} first and {a} afterwards"))
+            break
+    return v
+
+
+CONSUMER_STRIDE = {"single": 16, "double": 150, "single-boundary": 8, "double-boundary": 60, "random": 2}
+
+
+def consumer_plans(name: str, nseg: int, crng, tick: int, big: bool):
+    """(label, start, steps, pause, impatient) for one segmentation"""
+    if name == "whole":
+        return [("waiting", 0, None, 0, False), ("late", 1, None, 0, False)]
+    if big:
+        return [("late", nseg, None, 0, False)] if name == "frames" else []
+    if name == "frames":
+        plans = [("keeps-up", 0, None, 0, False), ("late", nseg, None, 0, False), ("slow", 0, 1, 2, False), ("impatient", 0, None, 0, True)]
+        if nseg <= 12 and crng.random() < 0.4:
+            plans += [("after-k", k, None, 0, False) for k in range(1, nseg)]  # every k
+        elif nseg > 2:
+            plans += [("after-k", crng.randrange(1, nseg), None, 0, False) for _ in range(2)]
+        return plans
+    if name == "byte":
+        plans = [("keeps-up", 0, None, 0, False), ("late", nseg, None, 0, False)]
+        r = crng.random()
+        if r < 0.35 or nseg <= 2:
+            plans.append(("slow", 0, 1, 2, False))
+        elif r < 0.7:
+            plans.append(("after-k", crng.randrange(1, nseg), None, 0, False))
+        else:
+            plans.append(("impatient", 0, None, 0, True))
+        return plans
+    if tick % CONSUMER_STRIDE.get(name, 7):
+        return []
+    r = crng.random()
+    start = 0 if r < 0.25 else (nseg if r < 0.5 else crng.randint(0, nseg))
+    return [("mixed", start, crng.choice([None, None, 1, 2]), crng.choice([0, 0, 1, 3]), crng.random() < 0.2)]
 
 
 # ---------------------------------------------------------------------------------------------------
@@ -369,6 +584,9 @@ def segmentations(S: bytes, bounds, rng, double: bool, nrand: int, maxwork: int 
         return
     if n <= 20000:
         yield "byte", tuple(range(1, n))
+    fb = tuple(b for b in bounds if 0 < b < n)
+    if fb:
+        yield "frames", fb  # one delivery per frame
     if n <= 150:
         for i in range(1, n):
             yield "single", (i,)
@@ -409,6 +627,8 @@ def check_stream(frames, cfg, rec, rng, ctx: str, double: bool, nrand: int = 3, 
     base = None
     nseg = 0
     reported = set()
+    crng = random.Random(zlib.crc32(S) ^ (cfg[2] * 4 + cfg[0] * 2 + cfg[1]))
+    big = len(S) > 300_000
     for name, cuts in segmentations(S, bounds, rng, double, nrand, maxwork):
         segs = cut(S, cuts)
         out = run_reader(S, cfg, segs)
@@ -416,6 +636,26 @@ def check_stream(frames, cfg, rec, rng, ctx: str, double: bool, nrand: int = 3, 
         rec.case((S, cfg, cuts), out.headers_seen)
         rec.count("seg:" + name)
         viol = list(out.viol)
+        # ---- consumer timing: the same deliveries read through ``await queue.read()``
+        for label, start, steps, pause, imp in consumer_plans(name, len(segs), crng, nseg, big):
+            c = run_consumer(S, cfg, segs, start, steps, pause, imp)
+            rec.case((S, cfg, cuts, "consumer", start, steps, pause, imp), out.headers_seen)
+            rec.count("consumer:" + label)
+            if c.forced:
+                rec.count("consumer:read-forced-by-paused-transport")
+            if c.retries:
+                rec.count("consumer:read-cancelled-and-retried", c.retries)
+            if out.err is not None:
+                rec.count("consumer:stream-with-error")
+                if start >= len(segs) and out.msgs:
+                    rec.count("consumer:messages-and-error-queued-before-first-read")
+            for mech, summ in judge_consumer(out, c):
+                if mech in reported:
+                    rec.violation_counts[mech] = rec.violation_counts.get(mech, 0) + 1
+                    continue
+                reported.add(mech)
+                w = {"stream": S, "cfg": list(cfg), "cuts": list(cuts), "ctx": ctx, "consumer": [start, steps, pause, imp]}
+                rec.violation(mech, f"[{ctx}] cfg(deflate,decode_text,max)={cfg} seg={name} consumer={label}(start after {start} of {len(segs)} deliveries, steps={steps}, pause={pause}, impatient={imp}): {summ}", w)
         if base is None:
             base = out
             jv, R = judge(S, cfg, out, rec, ctx)
@@ -699,6 +939,8 @@ def shards(tier, seed):
             out.append({"kind": "long", "sub": i, "of": 3, "big": False})
         for i in range(2):
             out.append({"kind": "codes", "sub": i, "of": 2})
+        for i in range(2):
+            out.append({"kind": "receive", "sub": i, "of": 2, "ncfg": 2, "allpos": False})
     else:
         for i in range(48):
             out.append({"kind": "classes", "sub": i, "of": 48, "double_cfgs": 16})
@@ -710,12 +952,14 @@ def shards(tier, seed):
             out.append({"kind": "long", "sub": i, "of": 4, "big": True})
         for i in range(4):
             out.append({"kind": "codes", "sub": i, "of": 4})
+        for i in range(12):
+            out.append({"kind": "receive", "sub": i, "of": 12, "ncfg": 4, "allpos": True})
     return out
 
 
 def run_shard(spec, rec):
     kind = spec["kind"]
-    seed = spec["seed"] * 1000003 + spec["sub"] * 7919 + {"classes": 1, "sizes": 2, "random": 3, "long": 4, "codes": 5}[kind]
+    seed = spec["seed"] * 1000003 + spec["sub"] * 7919 + {"classes": 1, "sizes": 2, "random": 3, "long": 4, "codes": 5, "receive": 6}[kind]
     rng = random.Random(seed)
     _load()
     if kind == "classes":
@@ -728,6 +972,8 @@ def run_shard(spec, rec):
         run_long(spec, rec, rng)
     elif kind == "codes":
         run_codes(spec, rec, rng)
+    elif kind == "receive":
+        run_receive_shard(spec, rec, rng)
 
 
 def run_classes(spec, rec, rng):
@@ -883,12 +1129,177 @@ def run_long(spec, rec, rng):
         rec.maxi("ms:long:" + name.rstrip("0123456789-+"), int((time.time() - t0) * 1000))
 
 
+# ---------------------------------------------------------------------------------------------------
+# receive path: the application reads through receive() of the real endpoint objects (vlib/wsrecv.py)
+
+TERMINALS = ("error", "close", "closed", "closing")
+
+
+def expected_receive(out: Outcome):
+    """what an application that calls receive() with autoping/autoclose off sees, given what the reader put on the queue:
+    every message up to the first CLOSE, else the error; (sequence, ends)"""
+    seq = []
+    for m in out.msgs:
+        seq.append((m[0], m[1], m[2]))
+        if m[0] == "close":
+            return seq, True
+    if out.err is not None:
+        seq.append(("error", out.err))
+        return seq, True
+    return seq, False
+
+
+def judge_receive(exp, ends, r):
+    """-> [(what, summary)]"""
+    got = r["seq"]
+    if r["exc"]:
+        return [("receive-raised", f"receive() raised {r['exc']} after {len(got)} messages (expected {len(exp)})")]
+    for i in range(min(len(exp), len(got))):
+        if exp[i] != got[i] or type(exp[i][1]) is not type(got[i][1]):
+            if got[i][0] == "error" and exp[i][0] != "error":
+                return [("messages-dropped-at-error", f"receive() returned the error {got[i][1]} at position {i}; the reader had decoded {len(exp) - (1 if ends else 0)} messages before the end of the stream")]
+            if exp[i][0] == "error" and got[i][0] == "error":
+                return [("error-differs", f"receive() returned error {got[i][1]}, the reader had failed with {exp[i][1]}")]
+            if exp[i][0] == "error" and got[i][0] in ("closed", "closing"):
+                return [("error-not-delivered", f"the reader had failed with {exp[i][1]}; receive() returned {got[i][0].upper()} instead of the error")]
+            return [("message-differs", f"position {i}: receive() returned {got[i]!r:.70}, expected {exp[i]!r:.70}")]
+    if len(got) < len(exp):
+        return [("messages-not-delivered", f"receive() returned {len(got)} of {len(exp)} (state {r['state']}); next expected {exp[len(got)]!r:.60}")]
+    if len(got) > len(exp):
+        return [("extra-message", f"receive() returned {len(got)} messages, expected {len(exp)}; extra={got[len(exp)]!r:.70}")]
+    if ends and r["after"] is not None and r["after"][0] not in TERMINALS:
+        return [("delivered-after-end", f"after {got[-1]!r:.50} receive() returned {r['after']!r:.60}")]
+    if not ends and not r["blocked"]:
+        return [("ended-without-cause", f"no close frame and no violation, yet receive() ended: state={r['state']} after={r['after']}")]
+    return []
+
+
+def classify_receive(S, cfg, segs, start, out, side, what) -> str:
+    """the same deliveries through the bare reader and queue: is it the reader (outcome depends on the segmentation), the
+    queue (consumer timing) or the endpoint object?"""
+    if start < 0:
+        segs, start = [S], 1
+    outs = run_reader(S, cfg, segs)
+    jc = judge_consumer(outs, run_consumer(S, cfg, segs, start, None, 0))
+    if jc:
+        return jc[0][0]
+    if outs.key() != out.key():
+        return "segmentation-dependent:" + ("messages" if tuple(outs.msgs) != tuple(out.msgs) else "error")
+    return f"receive-path:{side}:{what}"
+
+
+def receive_plans(nframes: int, n: int, rng):
+    """(segmentation name, cuts or None for frame boundaries, start)"""
+    plans = [("frames", None, -1), ("frames", None, 0), ("frames", None, nframes)]
+    ks = range(1, nframes) if nframes <= 6 else sorted(rng.sample(range(1, nframes), 3))
+    plans += [("frames", None, k) for k in ks]
+    plans += [("whole", (), 0), ("whole", (), 1)]
+    if n > 2:
+        k = rng.randint(1, min(6, n - 1))
+        cuts = tuple(sorted(rng.sample(range(1, n), k)))
+        plans.append(("random", cuts, rng.randint(0, k + 1)))
+        plans.append(("random", cuts, k + 1))
+    return plans
+
+
+def check_receive(frames, cfg, rec, rng, ctx: str, sides=("server", "client")):
+    from vlib import wsrecv
+
+    S = b"".join(frames)
+    out = run_reader(S, cfg, [S])
+    exp, ends = expected_receive(out)
+    bounds = tuple(b for b in frame_bounds(frames) if 0 < b < len(S))
+    reported = set()
+    for side in sides:
+        for name, cuts, start in receive_plans(len(bounds) + 1, len(S), rng):
+            if cuts is None:
+                cuts = bounds
+            segs = cut(S, cuts)
+            r = wsrecv.run_receive(side, S, cfg, segs, start)
+            if r["setup_error"]:
+                rec.count("receive:harness-setup-error")
+                rec.inconclusive_reason(f"receive harness: {r['setup_error']}")
+                continue
+            if bool(r.get("compress")) != bool(cfg[0]):
+                rec.count("receive:harness-extension-not-negotiated")
+                rec.inconclusive_reason("receive harness: permessage-deflate negotiation differs from the configuration")
+                continue
+            rec.case((S, cfg, cuts, "receive", side, start), out.headers_seen)
+            rec.count(f"receive:{side}:" + ("before-endpoint-exists" if start < 0 else "waiting" if start == 0 else "late" if start >= len(segs) else "after-k"))
+            if out.err is not None and ends and exp[-1][0] == "error":
+                rec.count("receive:stream-ends-with-error")
+                if len(exp) > 1 and (start < 0 or start >= len(segs)):
+                    rec.count("receive:messages-and-error-arrived-before-first-receive")
+            if r["captured"] or r["escaped"]:
+                rec.count("receive:exception-reached-loop")
+            for what, summ in judge_receive(exp, ends, r):
+                mech = classify_receive(S, cfg, segs, start, out, side, what)
+                if mech in reported:
+                    rec.violation_counts[mech] = rec.violation_counts.get(mech, 0) + 1
+                    continue
+                reported.add(mech)
+                w = {"stream": S, "cfg": list(cfg), "cuts": list(cuts), "ctx": ctx, "receive": [side, start]}
+                rec.violation(mech, f"[{ctx}] cfg(deflate,decode_text,max)={cfg} {side}.receive() seg={name} start={start} of {len(segs)} deliveries: {summ}", w)
+
+
+def run_receive_shard(spec, rec, rng):
+    """violation / edge units at frame positions of the base sequences and size units at their own limit, read through
+    receive() of both endpoint objects under every consumer start"""
+    idx = 0
+    for masked in (False, True):
+        gen = random.Random(spec["seed"] * 31 + (1 if masked else 0))
+        Bs = bases(gen, masked)
+        Us = units(gen, masked)
+        for uname, uframes in Us:
+            for bi, (bname, bframes) in enumerate(Bs):
+                positions = range(len(bframes) + 1) if spec["allpos"] else [gen.randrange(len(bframes) + 1)] if gen.randrange(3) == 0 or bi == 0 else []
+                for pos in positions:
+                    idx += 1
+                    if idx % spec["of"] != spec["sub"]:
+                        continue
+                    frames = bframes[:pos] + uframes + bframes[pos:]
+                    ctx = f"receive:{uname}@{bname}[{pos}]{'+mask' if masked else ''}"
+                    rec.count("receive-unit:" + uname.rstrip("0123456789-+"))
+                    for cfg in rng.sample(CONFIGS, spec["ncfg"]):
+                        check_receive(frames, cfg, rec, rng, ctx)
+        for mx in (16, 256):
+            gen2 = random.Random(spec["seed"] * 37 + mx + (1 if masked else 0))
+            pre = [F(TEXT, b"pre", mask=mk(gen2, masked)), F(BIN, b"pre2", mask=mk(gen2, masked))]
+            for uname, uframes in size_units(gen2, masked, mx):
+                idx += 1
+                if idx % spec["of"] != spec["sub"] or sum(map(len, uframes)) > 70000:
+                    continue
+                rec.count("receive-size-unit:" + uname.rstrip("0123456789-+"))
+                for cfg in [c for c in CONFIGS if c[2] == mx][:: 1 if spec["allpos"] else 2]:
+                    check_receive(pre + uframes, cfg, rec, rng, f"receive:size{mx}:{uname}{'+mask' if masked else ''}")
+
+
 def replay(witness, rec):
     _load()
     S = bytes.fromhex(witness["stream"]["hex"])
     cfg = tuple(witness["cfg"])
     cuts = tuple(witness.get("cuts") or ())
     rng = random.Random(0)
+    if witness.get("consumer"):
+        start, steps, pause = witness["consumer"][:3]
+        imp = bool(witness["consumer"][3]) if len(witness["consumer"]) > 3 else False
+        segs = cut(S, cuts)
+        out = run_reader(S, cfg, segs)
+        rec.case((S, cfg, cuts, "consumer", start, steps, pause, imp), True)
+        for mech, summ in judge_consumer(out, run_consumer(S, cfg, segs, start, steps, pause, imp)):
+            rec.violation(mech, f"[replay] {summ}", witness)
+        return
+    if witness.get("receive"):
+        from vlib import wsrecv
+
+        side, start = witness["receive"]
+        segs = cut(S, cuts)
+        exp, ends = expected_receive(run_reader(S, cfg, [S]))
+        rec.case((S, cfg, cuts, "receive", side, start), True)
+        out = run_reader(S, cfg, [S])
+        for what, summ in judge_receive(exp, ends, wsrecv.run_receive(side, S, cfg, segs, start)):
+            rec.violation(classify_receive(S, cfg, segs, start, out, side, what), f"[replay] {summ}", witness)
+        return
     for c in ((), cuts) if cuts else ((),):
         out = run_reader(S, cfg, cut(S, c))
         rec.case((S, cfg, c), True)
